@@ -96,6 +96,28 @@ def random_graph(rnd):
     return {"nt": "\n".join(L) + "\n", "classes": classes, "preds": [preds[0]]}
 
 
+def repeated_typing_graph(rnd):
+    """a random graph in which some nodes with two classes have one of their typing statements written twice (the
+    line-based readers deliver both; rdflib collapses them): the class list of such an instance, hence the order of
+    the shapes and the winner of a reference tie, must not pass through a set (seed C19-m5)"""
+    for _ in range(50):
+        g = random_graph(rnd)
+        L = g["nt"].splitlines()
+        by = {}
+        for l in L:
+            s_, p_, o_ = l.split(" ")[:3]
+            if p_ == "<%s>" % T:
+                by.setdefault(s_, []).append(l)
+        two = [ls for ls in by.values() if len(ls) >= 2]
+        if len(two) >= 2:
+            break
+    for ls in two[:max(2, len(two) // 2)]:
+        for _ in range(rnd.choice([1, 1, 2])):
+            L.insert(rnd.randint(0, len(L)), rnd.choice(ls))
+    g["nt"] = "\n".join(L) + "\n"
+    return g
+
+
 WORDS = ["gadget", "widget", "sprocket", "flange", "gizmo", "doohickey", "thing", "part", "item", "unit", "piece", "bit"]
 PROPS = ["colour", "weight", "height", "width", "depth", "vendor", "price", "mass", "size", "shape", "origin", "grade",
          "batch", "model", "serial", "owner", "state", "level", "range", "power"]
@@ -141,6 +163,8 @@ def make_cases(tier, rnd):
         graphs["g%d" % i] = random_graph(rnd)
     for i in range(1, (8 if tier == "thorough" else 3) + 1):
         graphs["t%d" % i] = tie_graph(rnd)
+    for i in range(1, (6 if tier == "thorough" else 2) + 1):
+        graphs["d%d" % i] = repeated_typing_graph(rnd)
     for name, g in graphs.items():
         with open(os.path.join(D, name + ".nt"), "w") as f:
             f.write(g["nt"])
@@ -148,7 +172,7 @@ def make_cases(tier, rnd):
     cases = []
     for gname in sorted(graphs):
         # the tie graphs skip the (slow) fake-endpoint kinds: 4 x 2 extractions through rdflib's SPARQL engine each
-        kinds = KINDS_MAIN + KINDS_RDFLIB + ([] if gname.startswith("t") else KINDS_ENDPOINT + KINDS_RANDOM_ALLOWED)
+        kinds = KINDS_MAIN + KINDS_RDFLIB + ([] if gname[0] in "td" else KINDS_ENDPOINT + KINDS_RANDOM_ALLOWED)
         for kind in kinds:
             for fmt in ("ShEx", "Shacl"):
                 if fmt == "Shacl" and kind in SHEXC_ONLY:
@@ -531,7 +555,8 @@ def run(tier, seed, replay=None):
         "distinct_nontrivial": len(cases),
         "rule": "distinct (graph, configuration, output format) cases, each extracted in %d fresh interpreters with "
                 "distinct PYTHONHASHSEED; every graph has equally frequent constraints (ties), the situation in which an "
-                "order leak is visible" % len(seeds),
+                "order leak is visible; graphs d1..: nodes with two classes whose typing statement is written twice "
+                "(line-based readers deliver both)" % len(seeds),
         "exhaustive": False,
         "hash_seeds": seeds,
         "cases": len(cases),
